@@ -15,6 +15,10 @@ TEMPLATES = {
     "load128": (bytes([0x0f, 0x10, 0x03]), "load", 16),
     "movzx8":  (bytes([0x0f, 0xb6, 0x03]), "load", 1), "cmp32": (bytes([0x39, 0x03]), "load", 4),
     "test8":   (bytes([0x84, 0x03]), "load", 1), "add_r_m64": (bytes([0x48, 0x03, 0x03]), "load", 8),
+    # compare / test with an immediate: reads its memory operand and writes NOTHING back
+    "cmp64i":  (bytes([0x48, 0x83, 0x3b, 0x05]), "load", 8), "cmp32i": (bytes([0x83, 0x3b, 0x05]), "load", 4),
+    "cmp16i":  (bytes([0x66, 0x81, 0x3b, 0x34, 0x12]), "load", 2), "cmp8i": (bytes([0x80, 0x3b, 0x7f]), "load", 1),
+    "test64i": (bytes([0x48, 0xf7, 0x03, 0xff, 0xff, 0xff, 0xff]), "load", 8), "cmp64i32": (bytes([0x48, 0x81, 0x3b, 0x78, 0x56, 0x34, 0x12]), "load", 8),
     "store8":  (bytes([0x88, 0x03]), "store", 1), "store16": (bytes([0x66, 0x89, 0x03]), "store", 2),
     "store32": (bytes([0x89, 0x03]), "store", 4), "store64": (bytes([0x48, 0x89, 0x03]), "store", 8),
     "store128": (bytes([0x0f, 0x11, 0x03]), "store", 16),
@@ -235,6 +239,12 @@ def project(scenarios, events, rep):
                 t["n"] = g["n"]
                 t["data"] = g.get("data", [])
                 t["mustrun"] = g.get("mustrun", False)
+                if g["kind"] == "hookstore":
+                    # a store made through the API from INSIDE a hook of the executed instruction: judged like any store; its outcome is
+                    # the inner call's, the footprint is what the step left in memory
+                    inner = [x for h in e.get("hooklog", []) for x in h.get("inner", []) if x.get("op") == "mem_write_bytes"]
+                    t["gk"] = "store"
+                    t["k"] = inner[0]["res"].get("k", "err") if inner else "err"
                 # a guest access event is only judged if the instruction itself was fetched at the planned place
             t["_src"] = e
             res_list.append(t)
